@@ -29,7 +29,7 @@ fn array_push_u32(res: &mut Vec<u8>, v: isize) {
 
 fn array_push_delta(res: &mut Vec<u8>, time: isize) {
     let mut buf: Vec<u8> = vec![];
-    let mut v = time;
+    let mut v = if time < 0 { 0 } else { time }; // delta time must not be negative
     buf.push((v & 0x7F) as u8);
     v = v >> 7;
     while v > 0 {
@@ -64,7 +64,7 @@ fn generate_track(track: &Track) -> Vec<u8> {
                 let note_vel = e.v3;
                 // note on
                 array_push_delta(&mut res, e.time - timepos);
-                timepos = e.time;
+                timepos = timepos.max(e.time);
                 res.push(0x90 + midi_ch(e.channel));
                 res.push(midi_data7(note_no)); // note_no
                 res.push(midi_data7(note_vel)); // velocity
@@ -74,27 +74,27 @@ fn generate_track(track: &Track) -> Vec<u8> {
                 // note_len = e.v2 // not use
                 let note_vel = e.v3;
                 array_push_delta(&mut res, e.time - timepos);
-                timepos = e.time;
+                timepos = timepos.max(e.time);
                 res.push(0x80 + midi_ch(e.channel));
                 res.push(midi_data7(note_no));
                 res.push(midi_data7(note_vel));
             },
             EventType::Voice => {
                 array_push_delta(&mut res, e.time - timepos);
-                timepos = e.time;
+                timepos = timepos.max(e.time);
                 res.push(0xC0 + midi_ch(e.channel));
                 res.push(midi_data7(e.v1));
             },
             EventType::ControllChange => {
                 array_push_delta(&mut res, e.time - timepos);
-                timepos = e.time;
+                timepos = timepos.max(e.time);
                 res.push(0xB0 + midi_ch(e.channel));
                 res.push(midi_data7(e.v1));
                 res.push(midi_data7(e.v2));
             },
             EventType::Meta => {
                 array_push_delta(&mut res, e.time - timepos);
-                timepos = e.time;
+                timepos = timepos.max(e.time);
                 res.push(e.v1 as u8);
                 res.push(e.v2 as u8);
                 res.push(e.v3 as u8);
@@ -108,7 +108,7 @@ fn generate_track(track: &Track) -> Vec<u8> {
                 if data.len() == 0 { continue; }
                 let delta_time = e.time - timepos;
                 array_push_delta(&mut res, delta_time);
-                timepos = e.time;
+                timepos = timepos.max(e.time);
                 let size = data.len() - 1;
                 // 1st byte must be 0xF0
                 res.push(0xF0); // SysEx Event
@@ -126,7 +126,7 @@ fn generate_track(track: &Track) -> Vec<u8> {
                 let lsb = ((v >> 0) & 0x7F) as u8;
                 // println!("PB={}(0x{:02x}{:02x})", v, msb, lsb);
                 array_push_delta(&mut res, e.time - timepos);
-                timepos = e.time;
+                timepos = timepos.max(e.time);
                 res.push(0xE0 + midi_ch(e.channel));
                 res.push(lsb);
                 res.push(msb);
@@ -137,7 +137,7 @@ fn generate_track(track: &Track) -> Vec<u8> {
                 let range = if range >= 0 && range <= 24 { range as u8 } else { 0 };
                 // RPN MSB
                 array_push_delta(&mut res, e.time - timepos);
-                timepos = e.time;
+                timepos = timepos.max(e.time);
                 res.push(0xB0 + midi_ch(e.channel));
                 res.push(MIDI_RPN_MSB);
                 res.push(0);
@@ -157,7 +157,7 @@ fn generate_track(track: &Track) -> Vec<u8> {
                 if data.len() == 0 { continue; }
                 let delta_time = e.time - timepos;
                 array_push_delta(&mut res, delta_time);
-                timepos = e.time;
+                timepos = timepos.max(e.time);
                 // write data
                 for b in data.iter() {
                     res.push(*b);
